@@ -35,6 +35,16 @@ func c58(c *Ctx) {
 		ck := one(c, "CheckSecurityLevel call", callsIn(f, Callee(creds, "CheckSecurityLevel")))
 		c.ArgIs(ck, 1, "level-is-PrivacyAndIntegrity", ConstOfObj(c.konst(creds, "PrivacyAndIntegrity")))
 		c.ArgIs(ck, 0, "auth-info-from-request-info", DataDep(CallRes(Callee(creds, "RequestInfoFromContext"), 0)))
+		// configured per-call credentials are always consulted: metadata is fetched exactly when the call carries credentials
+		fCr := c.field(tr, "CallHdr", "Creds")
+		c.MustFact(get, "fetch-only-from-existing-credentials", NotNil(FieldLoad(fCr)))
+		for _, r := range returnsOf(f) {
+			if r.Block() == f.Recover || !ConstNil(r.Results[1]) || instrDominates(get, r) {
+				continue
+			}
+			gb := get.Block()
+			c.EnteredOnlyWhenExcept(r.Block(), "credentials-skipped-only-when-the-call-has-none", func(p *ssa.BasicBlock) bool { return p == gb || gb.Dominates(p) }, IsNil(FieldLoad(fCr)))
+		}
 		// the receiver of GetRequestMetadata is the credential whose requirement was tested
 		rq := one(c, "RequireTransportSecurity call", callsIn(f, Callee(creds, "PerRPCCredentials.RequireTransportSecurity")))
 		c.Expect(strip(rq.Common().Value) == strip(get.Common().Value), get, f, "same-credential", "the credential asked for metadata is not the one whose RequireTransportSecurity was tested")
